@@ -25,7 +25,6 @@ import (
 	"strings"
 	"time"
 
-	pb "github.com/google/go-tdx-guest/proto/tdx"
 	"github.com/google/go-tdx-guest/verify"
 	"google.golang.org/protobuf/proto"
 
@@ -44,29 +43,7 @@ func c05CaseRng(r *hx.Run, family uint64, idx int) *rand.Rand {
 }
 
 // c05RunWith calls the real verify.TdxQuote on the world's message (cloned) through the GIVEN options value.
-func c05RunWith(w *world.World, o *verify.Options) vResult {
-	w.Getter.URLs = nil
-	nowBefore := o.Now
-	var err error
-	res, _ := hx.Guard(func() string {
-		var q any = w.Quote
-		if w.Quote != nil {
-			q = proto.Clone(w.Quote).(*pb.QuoteV4)
-		}
-		err = verify.TdxQuote(q, o)
-		if err != nil {
-			return "err"
-		}
-		return "ok"
-	})
-	nowS := "kept"
-	if o.Now != nowBefore {
-		nowS = "set"
-	}
-	joined := world.JoinURLs(w.Getter.URLs)
-	obs := fmt.Sprintf("%s urls=%d:%d now=%s", res, len(w.Getter.URLs), hx.Fnv1a([]byte(joined)), nowS)
-	return vResult{obs, res == "ok", res == "panic", append([]string{}, w.Getter.URLs...), err, vSide(w, o)}
-}
+func c05RunWith(w *world.World, o *verify.Options) vResult { return verifyCall(w, o) }
 
 // c05Emit records a result that was obtained with the world's CURRENT Spec.GC / CR / Now / PoolNil and PoolCerts
 // (the V.verify line is rendered from them); `clock` is the wall clock read just before the call.
@@ -241,6 +218,27 @@ func c05SerialMods() []c05Mod {
 					}
 				}
 			}})
+		}
+	}
+	// the caller trusts more than the root: the pool holds the whole hierarchy (root, intermediate, both collateral signers,
+	// or everything including the leaf).  A certificate that is itself in the pool is still looked up in the list of its issuer.
+	for _, tg := range c05Targets {
+		for _, pool := range [][]string{{"root", "inter", "signer", "qesigner"}, {"root", "inter", "leaf", "signer", "qesigner"}, {"signer", "qesigner", "root"}} {
+			for _, kind := range []string{"exact", "k-last", "k-absent"} {
+				tg, kind, pool := tg, kind, pool
+				listed := kind != "k-absent"
+				out = append(out, c05Mod{"serial", "pool-holds(" + strings.Join(pool, "+") + ")+set:" + kind + "/" + tg.name, !(listed && tg.right), func(s *world.Spec, rng *rand.Rand) {
+					s.Pool = pool
+					set, _ := c05Set(rng, kind, s.Cert(tg.role).Serial, c05Avoid(s))
+					if tg.crl == "pck" {
+						s.PckCrl.Revoked = set
+					} else {
+						for i := range s.RootCrls {
+							s.RootCrls[i].Revoked = set
+						}
+					}
+				}})
+			}
 		}
 	}
 	return out
